@@ -5,6 +5,7 @@ import (
 	"context"
 	"fmt"
 	"regexp"
+	"unicode/utf8"
 
 	"git.defalsify.org/vise.git/cache"
 	"git.defalsify.org/vise.git/state"
@@ -52,6 +53,11 @@ func RegisterInputValidator(k int, v string) error {
 
 // CheckInput validates the given byte string as client input.
 func ValidInput(input []byte) (int, error) {
+	if !utf8.Valid(input) {
+		// input is text; bytes that are not UTF-8 end up in cached values and make the
+		// persisted session undecodable (cbor text strings must be valid UTF-8)
+		return -2, fmt.Errorf("Input is not valid UTF-8")
+	}
 	if inputRegex.Match(input) {
 		return -1, nil
 	}
